@@ -488,4 +488,43 @@ theorem no_zero_to_one_matrix (c : Cfg) (hv : Valid c) (f : Flash) (hg : Good c 
   · intro f m d _ hokd herd
     exact setRow_seqOk c hv.pos f m d hokd.1 hokd.2.2.2.1 herd
 
+/-! ## the `as u32` casts of `flash.rs` are exact
+
+`flash_range` is a `Range<u32>`, so `c.stop < 2^32` holds for every adapter that can be constructed. Under the calling
+contract (`Call`) every address and every end address of an access is then below `2^32`, and so is every offset that
+`flash.rs` converts with `as u32` before adding it to `flash_range.start` (`m * len`, `(m + 1) * len`, the padded parity
+slot offset, the triangular row offset and row size): no cast truncates and no `u32` addition wraps, which is what the
+model (unbounded `Nat` addresses) assumes. -/
+
+theorem u32_accesses_exact (c : Cfg) (hv : Valid c) (h32 : c.stop < 2 ^ 32) (accs : List Acc) (h : Call c accs) :
+    (∀ addr bs, Acc.program addr bs ∈ accs → addr < 2 ^ 32 ∧ addr + bs.length < 2 ^ 32) ∧
+    (∀ addr n, Acc.read addr n ∈ accs → addr < 2 ^ 32 ∧ addr + n < 2 ^ 32) ∧
+    (∀ a b, Acc.erase a b ∈ accs → a < 2 ^ 32 ∧ b < 2 ^ 32) := by
+  obtain ⟨hp, hr, he⟩ := in_range c hv accs h
+  refine ⟨fun a bs hm => ?_, fun a n hm => ?_, fun a b hm => ?_⟩
+  · have := hp a bs hm; omega
+  · have := hr a n hm; omega
+  · have := he a b hm
+    have := (call_legal c hv accs h _ hm).2
+    simp only [Acc.inRange] at this
+    omega
+
+theorem u32_offsets_exact (c : Cfg) (hv : Valid c) (h32 : c.stop < 2 ^ 32) :
+    (∀ m len, c.start + (m + 1) * len ≤ c.stop →
+      m * len < 2 ^ 32 ∧ (m + 1) * len < 2 ^ 32 ∧ c.start + m * len < 2 ^ 32 ∧ c.start + (m + 1) * len < 2 ^ 32) ∧
+    (∀ m len, c.start + (m + 1) * nextMultipleOf len c.W ≤ c.stop →
+      m * nextMultipleOf len c.W < 2 ^ 32 ∧ c.start + m * nextMultipleOf len c.W + nextMultipleOf len c.W < 2 ^ 32) ∧
+    (∀ m, m < numRows c →
+      flashRowAddressOffset c m < 2 ^ 32 ∧ flashRowSize c m < 2 ^ 32 ∧
+      c.start + flashRowAddressOffset c m + flashRowSize c m < 2 ^ 32) := by
+  refine ⟨fun m len h => ?_, fun m len h => ?_, fun m h => ?_⟩
+  · rw [Nat.add_mul, Nat.one_mul] at h
+    rw [Nat.add_mul, Nat.one_mul]
+    omega
+  · rw [Nat.add_mul, Nat.one_mul] at h
+    omega
+  · have := (cap_row hv.pos h).2
+    unfold rowAddr at this
+    omega
+
 end Fuota.C16
